@@ -1,6 +1,7 @@
 package main
 
 import (
+	"encoding/json"
 	"flag"
 	"fmt"
 	"go/types"
@@ -135,8 +136,23 @@ func heapDumper() {
 	}()
 }
 
+// cleanStale removes scratch files of earlier runs that were killed before they could clean up
+// (fallback-solver query files, native replay directories); only entries older than three hours,
+// so that concurrent runs are left alone.
+func cleanStale() {
+	for _, pat := range []string{"/var/tmp/gosym-q-*.smt2", "/var/tmp/verif-replay-*"} {
+		ms, _ := filepath.Glob(pat)
+		for _, m := range ms {
+			if fi, err := os.Stat(m); err == nil && time.Since(fi.ModTime()) > 3*time.Hour {
+				os.RemoveAll(m)
+			}
+		}
+	}
+}
+
 func main() {
 	heapDumper()
+	cleanStale()
 	// long explorations allocate fast on 16 workers: keep the collector ahead of them
 	debug.SetGCPercent(50)
 	debug.SetMemoryLimit(24 << 30)
@@ -152,6 +168,7 @@ func main() {
 		slog     = flag.String("solverlog", "", "write worker 0 solver transcript here")
 		maxpaths = flag.Int("maxpaths", 0, "path budget per harness")
 		noreplay = flag.Bool("noreplay", false, "skip native replay / translator validation")
+		replay   = flag.String("replay", "", "replay a recorded counterexample (out/<id>/cex-*.json) natively against /repo's current tree")
 		vdir     = flag.String("verif", "/verif", "verif dir")
 		fallb    = flag.String("fallback", "z3-new,cvc5", "comma-separated fallback solvers tried one-shot when the primary answers unknown")
 	)
@@ -183,6 +200,9 @@ func main() {
 		opts.TimeoutMs = *timeout
 	} else if opts.Thorough {
 		opts.TimeoutMs = 300000
+	}
+	if *replay != "" {
+		os.Exit(replayCase(*prop, *replay, *tier == "thorough"))
 	}
 	code := runProperty(*prop, *tier, *only, opts, *noreplay)
 	os.Exit(code)
@@ -294,4 +314,72 @@ func printResult(r *HarnessResult) {
 	for _, v := range r.Violations {
 		fmt.Printf("  candidate violation %s: %s (x%d) inputs=%v stack=%s\n", r.Name, v.Label, v.Count, v.Inputs, v.Stack)
 	}
+}
+
+// replayCase re-runs one recorded counterexample natively (no solver): the harness is compiled
+// against /repo's current working tree with the recorded inputs. Exit 1 with a VIOLATION line if
+// the recorded check still fails (or the run panics), 0 if it does not reproduce.
+func replayCase(propID, path string, thorough bool) int {
+	raw, err := os.ReadFile(path)
+	if err != nil {
+		fmt.Fprintln(os.Stderr, "replay:", err)
+		return 2
+	}
+	var c struct {
+		Harness  string            `json:"harness"`
+		Inputs   map[string]string `json:"inputs"`
+		Label    string            `json:"label"`
+		PkgDir   string            `json:"pkg_dir"`
+		Property string            `json:"property"`
+		Repeat   int               `json:"repeat"`
+	}
+	if err := json.Unmarshal(raw, &c); err != nil {
+		fmt.Fprintln(os.Stderr, "replay:", err)
+		return 2
+	}
+	if propID == "" {
+		propID = c.Property
+	}
+	cfg, err := loadCheckConfig(propID)
+	if err != nil {
+		fmt.Fprintln(os.Stderr, "config:", err)
+		return 2
+	}
+	files, err := harnessOverlay(cfg.PkgDirs, propID)
+	if err != nil {
+		fmt.Fprintln(os.Stderr, "overlay:", err)
+		return 2
+	}
+	ld, err := load(cfg.PkgDirs, files, cfg.Tags)
+	if err != nil {
+		fmt.Printf("INCONCLUSIVE property=%s harnesses do not load against the current tree: %v\n", propID, err)
+		return 0
+	}
+	pkgName := ""
+	for _, sp := range ld.spkgs {
+		if sp != nil && strings.TrimPrefix(sp.Pkg.Path(), modPath+"/") == c.PkgDir {
+			pkgName = sp.Pkg.Name()
+		}
+	}
+	rep := c.Repeat
+	if rep == 0 {
+		rep = 1
+	}
+	res, err := nativeRun(propID, c.PkgDir, pkgName, []string{c.Harness}, ld.files, cfg.Tags, []caseJSON{{Harness: c.Harness, Inputs: c.Inputs, Repeat: rep}}, thorough)
+	if err != nil || len(res) == 0 {
+		fmt.Printf("INCONCLUSIVE property=%s native replay failed: %v\n", propID, err)
+		return 0
+	}
+	fmt.Printf("replay property=%s harness=%s outcome=%s label=%q\n", propID, c.Harness, res[0].Outcome, res[0].Label)
+	if res[0].Outcome == "checkfail" || res[0].Outcome == "panic" {
+		for _, k := range loadKnown() {
+			if k.Status == "known" && k.Property == propID && k.Harness == c.Harness && k.Label == res[0].Label {
+				fmt.Printf("KNOWN-FINDING: property=%s %s\n", propID, k.What)
+				return 0
+			}
+		}
+		fmt.Printf("VIOLATION property=%s replay=%s\n", propID, path)
+		return 1
+	}
+	return 0
 }
